@@ -1503,11 +1503,42 @@ def _clone_doc_with_one_region(doc: model.ContentDocument, region_id: str):
 
     for child in element:
       new_child = _copy_content_element(new_doc, selected_region, associated_region, child)
-      if new_child is not None:
+      if isinstance(new_child, list):
+        new_children.extend(new_child)
+      elif new_child is not None:
         new_children.append(new_child)
 
     if len(new_children) > 0:
-      new_element.push_children(new_children)
+
+      try:
+
+        new_element.push_children(new_children)
+
+      except ValueError:
+
+        # region selection has left a ruby container without a complete pattern (see ISD._process_element)
+
+        if isinstance(new_element, model.Rtc):
+          return None
+
+        if not isinstance(new_element, model.Ruby):
+          raise
+
+        base_spans = []
+
+        for new_child in new_children:
+          if isinstance(new_child, model.Rb):
+            new_rbs = [new_child]
+          elif isinstance(new_child, model.Rbc):
+            new_rbs = list(new_child)
+          else:
+            new_rbs = []
+          for new_rb in new_rbs:
+            for new_span in list(new_rb):
+              new_rb.remove_child(new_span)
+              base_spans.append(new_span)
+
+        return base_spans if len(base_spans) > 0 else None
 
     return new_element
 
